@@ -3,6 +3,7 @@
 
 mod c02;
 mod c03;
+mod c25;
 mod prog;
 mod subject;
 
@@ -11,6 +12,7 @@ fn main() {
     match prop.as_str() {
         "C02" => c02::run(vp_core::Ctx::from_env("C02")),
         "C03" => c03::run(vp_core::Ctx::from_env("C03")),
+        "C25" => c25::run(vp_core::Ctx::from_env("C25")),
         _ => vp_core::machinery_error(&format!("mc-graph: unknown property '{prop}'")),
     }
 }
